@@ -141,37 +141,11 @@ theorem cover_exact (np : List Int) (n : Nat) (tc : List Int) (frs : List Frag) 
   let x := coverWith_exact usable_inside np n tc frs c h
   ⟨x.covers, x.disjoint, x.inside⟩
 
-theorem countP_le_one_of_pairwise {α} {l : List α} {q : α → Bool}
-    (h : l.Pairwise fun x y => ¬ (q x = true ∧ q y = true)) : l.countP q ≤ 1 := by
-  induction l with
-  | nil => simp
-  | cons x l ih =>
-    rw [List.pairwise_cons] at h
-    rw [List.countP_cons]
-    by_cases hx : q x = true
-    · have : l.countP q = 0 := by
-        rw [List.countP_eq_zero]
-        intro y hy hqy
-        exact h.1 y hy ⟨hx, hqy⟩
-      simp [hx, this]
-    · have := ih h.2
-      simp [hx]; omega
-
 /-- `cover_exact`, counting form: a to-be-covered atom that is a PTM atom is in exactly one chosen placement. -/
 theorem cover_exact_count (np : List Int) (n : Nat) (tc : List Int) (frs : List Frag) (c : Cover)
     (h : coverGraph np n tc frs = .ok c) (a : Int) (ha : a ∈ tc) (hp : a ∉ np) :
-    c.countP (fun e => (patoms e.2).contains a) = 1 := by
-  obtain ⟨h1, h2, _⟩ := cover_exact np n tc frs c h
-  have hle : c.countP (fun e => (patoms e.2).contains a) ≤ 1 := by
-    apply countP_le_one_of_pairwise
-    refine h2.imp ?_
-    intro e e' hee ⟨he, he'⟩
-    exact hp (hee a (by simpa using he) (by simpa using he'))
-  have hpos : 0 < c.countP (fun e => (patoms e.2).contains a) := by
-    rw [List.countP_pos_iff]
-    obtain ⟨e, he, hae⟩ := h1 a ha
-    exact ⟨e, he, by simpa using hae⟩
-  omega
+    c.countP (fun e => (patoms e.2).contains a) = 1 :=
+  cover_exact_count_aux np n tc frs c h a ha hp
 
 /-- `cover_complete`: with the fuel the code effectively has, the search answers `KeyError` only if no
 exact cover exists among the candidate placements — handing `fragments[idx:]` to the recursion does not
@@ -211,31 +185,8 @@ theorem identify_spec (res : List Atom) (edges : List (Int × Int)) (mods : List
             cov.countP (fun e => (patoms e.2).contains a) = 1)
         ∧ (∀ e ∈ cov, ∃ f ∈ frags, f.1 = e.1 ∧ e.2 ∈ f.2)
     | .keyError rm => ∀ g ∈ groups, usedOf annot g = [] → ∀ a ∈ g.atoms, a ∈ rm
-    | .outOfFuel => False := by
-  unfold identify
-  cases hl : identifyLoop res edges mods annot groups [] [] [] with
-  | inr r =>
-    obtain ⟨rm, rfl, _, h2⟩ := identifyLoop_inr _ _ _ _ _ hl
-    exact h2
-  | inl x =>
-    obtain ⟨cov, tc, pending⟩ := x
-    obtain ⟨_, _, _, i4⟩ := identifyLoop_inl _ _ _ _ _ _ _ hl
-    simp only []
-    cases hc : coverGraph (nonPtm res) tc.length tc frags with
-    | outOfFuel => exact absurd hc (cover_terminates _ _ _ _ (Nat.le_refl _))
-    | keyError =>
-      intro g hg hu a ha
-      exact ((i4 g hg).1 hu a ha).2
-    | ok c =>
-      refine ⟨?_, ?_, cover_sound _ _ _ _ _ hc⟩
-      · intro g hg a ha
-        by_cases hu : usedOf annot g = []
-        · obtain ⟨e, he, hae⟩ := (cover_exact _ _ _ _ _ hc).1 a ((i4 g hg).1 hu a ha).1
-          exact ⟨e, List.mem_append_right _ he, hae⟩
-        · obtain ⟨e, he, hae⟩ := (i4 g hg).2 hu a ha
-          exact ⟨e, List.mem_append_left _ he, hae⟩
-      · intro g hg hu a ha hnp
-        exact cover_exact_count _ _ _ _ _ hc a ((i4 g hg).1 hu a ha).1 hnp
+    | .outOfFuel => False :=
+  identify_spec_aux res edges mods annot groups frags
 
 /-- One iteration of the loop of `fix_ptm`, for the groups `groups` with key `key`.  It ends in one of
 two ways.
@@ -287,7 +238,7 @@ theorem step_label_or_remove (mods : List Modif) (orig : List Atom) (s : St) (ke
 /-- Whole-loop frame facts (used by `removal_is_reported`; the full statement is `label_or_remove`
 below): the loop always returns, warnings are never dropped, atoms never reappear, and an atom that
 disappears is named in a warning. -/
-theorem label_or_remove_partial (mods : List Modif) (orig : List Atom) :
+theorem loop_frame_facts (mods : List Modif) (orig : List Atom) :
     ∀ (its : List (List Int × List Group)) (s : St) (given : List (List (List Placement))),
       ∃ s', runIters mods orig s its given = .done s'
         ∧ (∀ w ∈ s.warnings, w ∈ s'.warnings)
@@ -332,19 +283,11 @@ theorem removal_is_reported (m : Mol) (mods : List Modif) (given : List (List (L
     ∃ s, fixPtm m mods given = .done s
       ∧ (∀ a ∈ s.mol.keys, a ∈ m.keys)
       ∧ ∀ a ∈ m.keys, a ∉ s.mol.keys → ∃ w ∈ s.warnings, a ∈ w := by
-  obtain ⟨s, hs, _, hk, hr⟩ := label_or_remove_partial mods m.atoms (iterations m)
+  obtain ⟨s, hs, _, hk, hr⟩ := loop_frame_facts mods m.atoms (iterations m)
     { mol := m, removed := [], warnings := [], log := [] } given
   exact ⟨s, hs, hk, hr⟩
 
 /-! ## the whole loop of fix_ptm -/
-
-/-- the nodes of the residues of a key (`n_idxs`) -/
-def nIdxsOf (orig : List Atom) (key : List Int) : List Int :=
-  (orig.filter fun a => key.contains a.resid).map (·.key)
-
-/-- the `annotated` snapshot: the `modifications` an atom carried in the input -/
-def annotOf (orig : List Atom) : Int → List Nat :=
-  fun k => ((orig.find? fun a => a.key == k).map (·.mods)).getD []
 
 /-- what the property demands of an initially flagged atom `a` in the final state `s`: it is absent
 and named in a warning, or it is present, lies in exactly one placement chosen by a cover search of
@@ -507,8 +450,8 @@ left uncovered), with the modifications of all placements of that iteration list
 non-PTM atoms and atoms / anchors of its own groups, key / resid / PTM flag never change, `modifications`
 only grow).  Per iteration the chosen placements are candidates of their fragments (`identify_spec`,
 `cover_sound`: induced, anchors by name, PTM atoms by element when the lists pass `candsOk`) and applying
-a placement renames as `rename_spec` / `rename_frame` say; `label_or_remove_partial_rename` names what is
-not composed over the loop. -/
+a placement renames as `rename_spec` / `rename_frame` say; the composition over the loop (final name,
+`replace` attributes, candidate of its own iteration) is `label_or_remove_full` (`C14_Whole.lean`). -/
 theorem label_or_remove (m : Mol) (mods : List Modif) (given : List (List (List Placement)))
     (hk : m.keys.Nodup) :
     ∃ s, fixPtm m mods given = .done s ∧
@@ -650,25 +593,9 @@ theorem rename_frame (mods : List Modif) (nIdxs : List Int) (atoms : List Atom) 
   rw [hl] at h
   exact h
 
-/-- `label_or_remove_partial_rename` (the remaining gap, stated precisely).  Proved: `rename_spec` (the
-placement that contains a PTM atom gives it the canonical name) and `rename_frame` (a placement that
-does not contain an atom leaves its attributes alone), both for ONE application of `applyOne`; and by
-`label_or_remove` the atom is in exactly one placement of the covers of the whole run.  NOT composed in
-Lean: that therefore the atom's `atomname` in the FINAL state is `canonName` of its pattern node (needs:
-the fold over the placements of its iteration and over all later iterations only meets `rename_frame`
-steps, `removeAtoms` keeps attributes, placements of the `used_mods` branch do not contain it, and the
-recorded candidates have distinct atoms).  Likewise the statement that the chosen placement is a
-candidate of the fragments of its iteration is available per iteration (`identify_spec`) but is not
-part of `Explained`, because the log does not record the residue.  What is stated here is the
-one-iteration consequence used by the oracle: a single chosen placement on a molecule. -/
-theorem label_or_remove_partial_rename (mods : List Modif) (nIdxs : List Int) (atoms : List Atom)
-    (c : Nat × Placement) (hp : (patoms c.2).Nodup) (a : Int) :
-    (a ∉ patoms c.2 → (atomAt (applyOne mods nIdxs atoms c) a).map (·.attrs) = (atomAt atoms a).map (·.attrs))
-    ∧ (∀ q ma nm b, (a, q) ∈ c.2 → (modAt mods c.1).atom? q = some ma → ma.ptm = true →
-        nameOf ma.attrs = some nm → ma.WF → atomAt atoms a = some b →
-        ∃ b', atomAt (applyOne mods nIdxs atoms c) a = some b' ∧ nameOf b'.attrs = some (canonName ma nm)) :=
-  ⟨rename_frame mods nIdxs atoms c hp a,
-   fun q ma nm b hq hma hptm hname hwf hb => rename_spec mods nIdxs atoms c hp a q hq ma hma hptm nm hname hwf b hb⟩
+/-! The composition of `rename_spec` / `rename_frame` over the whole loop (the atom's name and `replace`
+attributes in the FINAL molecule, the placement being a candidate of the fragments of ITS iteration) is
+`label_or_remove_full` in `VermouthProps/C14_Whole.lean`. -/
 
 /-- non-vacuity of `rename_spec`: pattern node `H2` with `replace: {atomname: HN2}`, atom called `X7` -/
 def exNH : Modif :=
